@@ -62,25 +62,27 @@ type Config struct {
 	WantWitness bool
 	Concrete    []ReplayValue
 	Verbose     bool
+	Cross       *CrossCheck
 }
 
 type PathResult struct {
-	Outcome    string // ok | panic | abort kind
-	Msg        string
-	Taken      []int
-	Pending    [][]int
-	Violations []Violation
-	Reached    map[string]int
-	Discharged int
-	Unknowns   int
-	Steps      int
-	Decisions  int
-	Forced     int
-	Stubs      map[string]bool
-	Outside    []string
-	Assumes    []string
-	Inputs     int
-	Witness    []ReplayValue // model of the path (ok paths when requested; unwound/unsupported paths)
+	Outcome          string // ok | panic | abort kind
+	Msg              string
+	Taken            []int
+	Pending          [][]int
+	Violations       []Violation
+	Reached          map[string]int
+	Discharged       int
+	SolverDischarged int
+	Unknowns         int
+	Steps            int
+	Decisions        int
+	Forced           int
+	Stubs            map[string]bool
+	Outside          []string
+	Assumes          []string
+	Inputs           int
+	Witness          []ReplayValue // model of the path (ok paths when requested; unwound/unsupported paths)
 }
 
 // extra interpreter state (fields added to the fork's interpreter struct)
@@ -206,7 +208,7 @@ func (p *Program) RunPath(harness *ssa.Function, prefix []int, solver *smt.Solve
 	ps := &PathState{
 		ctx: smt.NewCtx(), solver: solver, prefix: prefix,
 		Reached: map[string]int{}, StepCap: cfg.StepCap, ActiveKnown: cfg.ActiveKnown,
-		Concrete: cfg.Concrete, Verbose: cfg.Verbose,
+		Concrete: cfg.Concrete, Verbose: cfg.Verbose, Cross: cfg.Cross,
 	}
 	i := &interpreter{
 		prog:               p.Prog,
@@ -273,6 +275,7 @@ func (p *Program) RunPath(harness *ssa.Function, prefix []int, solver *smt.Solve
 		res.Violations = ps.Violations
 		res.Reached = ps.Reached
 		res.Discharged = ps.Discharged
+		res.SolverDischarged = ps.SolverDischarged
 		res.Unknowns = ps.Unknowns
 		res.Steps = ps.Steps
 		res.Decisions = ps.Decisions
